@@ -428,6 +428,8 @@ class Engine(Interp):
         mods = spec.modifies if spec.modifies is not None else (fr.contract.modifies if fr.contract else [])
         for path in mods:
             self.havoc_path(path, env)
+        for cs in getattr(spec, "cases", []):
+            self.ctx.branch(self.spec_eval(cs, dict(env), fr.old, fr.contract.namespace if fr.contract else None))
         for src, tags, t in inv_terms():
             self.ctx.assume(t)
         m0 = None
